@@ -850,6 +850,10 @@ class Path:
         if conc and not isinstance(a, SymFloat) and not isinstance(b, SymFloat):
             return self.binop_concrete(op, a, b)
         if isinstance(a, SymFloat) or isinstance(b, SymFloat) or isinstance(a, float) or isinstance(b, float):
+            if op is ast.Mult and isinstance(a, SymFloat) and isinstance(b, float):
+                return self.ex.intrinsics.float_mul_unit(self, a, b)
+            if op is ast.Mult and isinstance(b, SymFloat) and isinstance(a, float):
+                return self.ex.intrinsics.float_mul_unit(self, b, a)
             raise Unsupported('symbolic float arithmetic')
         if is_fraclike(a) or is_fraclike(b):
             return self.binop_real(op, a, b)
@@ -979,6 +983,9 @@ class Path:
                     return 0
                 if b & (b + 1) == 0:          # 2^k - 1
                     return simp(x % (b + 1))
+                low = b & -b
+                if (b // low) & (b // low + 1) == 0:      # contiguous run of ones: (2^w - 1) << k
+                    return simp(((x / low) % (b // low + 1)) * low)
                 # general non-negative constant: sum of its set bits
                 terms = []
                 k = 0
@@ -1108,6 +1115,11 @@ class Path:
             except TypeError:
                 raise SymRaise(mk_exc('TypeError'))
         if isinstance(a, (SymFloat, float)) or isinstance(b, (SymFloat, float)):
+            if isinstance(a, SymFloat) and isinstance(b, (int, float)) and not isinstance(b, bool) and b == 0:
+                return self.ex.intrinsics.float_compare_zero(self, op.__name__, a)
+            if isinstance(b, SymFloat) and isinstance(a, (int, float)) and not isinstance(a, bool) and a == 0:
+                flip = {'Lt': 'Gt', 'Gt': 'Lt', 'LtE': 'GtE', 'GtE': 'LtE'}[op.__name__]
+                return self.ex.intrinsics.float_compare_zero(self, flip, b)
             raise Unsupported('symbolic float comparison')
         if is_fraclike(a) or is_fraclike(b):
             x, y = as_z3real(a), as_z3real(b)
